@@ -63,6 +63,34 @@ def check_model(text, exp, renderer, acc, case):
             return
 
 
+def check_text(text, acc, default='en'):
+    """Documents from every control state of the generated machine (witness prefix . lines): when accepted, the AST with
+    locations and ids projected away must equal the reference builder's (same statement, independent code)."""
+    from .. import ref as R
+    case = {'kind': 'text', 'text': text}
+    acc.n += 1
+    a = I.parse(text, default=default, acc=acc)
+    if a[0] == 'exc':
+        acc.violation('foreign-exception', case, 'parser raised ' + a[1])
+        return
+    if a[0] != 'ok':
+        acc.outcomes['rejected'] += 1
+        return
+    r = R.reference(text, default=default, compile_=False)
+    if r.status != 'ok':
+        return          # acceptance itself is C02 / C14
+    acc.validated += 1
+    acc.nontrivial += 1
+    acc.outcomes['accepted'] += 1
+    rd = dict(r.doc)
+    rd.pop('uri', None)
+    got, want = project(a[1]), project(rd)
+    if got != want:
+        p, x, y = first_diff(got, want)
+        sig = 'ast-' + (p.rsplit('/', 1)[-1] if not p.rsplit('/', 1)[-1].isdigit() else p.rsplit('/', 2)[-2])
+        acc.violation(sig, case, 'AST differs from the reference builder at %s' % p, observed=x, expected=y)
+
+
 def run(ctx):
     ctx.alphabet = {'names': G.NAME_ALPHA, 'texts': G.TEXT_ALPHA, 'tags': G.TAG_ALPHA, 'cells': G.CELL_ALPHA,
                     'description_lines': [d[1] for d in G.DESC_ALPHA], 'doc_lines': [str(d) for d in G.DOC_ALPHA],
@@ -71,6 +99,9 @@ def run(ctx):
                 'a candidate is kept only if the grammar automaton reads each rendered line in the intended role; distinct by construction; all are non-trivial (accepted, compared with the model)')
     ctx.assumptions = ['the expected AST is computed from the model by the renderer, never from the text; admissibility uses the reference lexer own-kind classification + gherkin.berp automaton']
     G.run_families(ctx, __name__, 6, 7, [0, 1, 6, 7])
+    from .. import docspace as DS
+    k_full, k_core = ctx.pick((2, 2), (3, 3))
+    DS.run_levels(ctx, __name__, k_full, k_core)
 
 
 def replay(case):
